@@ -246,6 +246,46 @@ theorem C06_allocated_id_fits_the_wire (occ : Nat → Bool) (k chani c ch : Nat)
   refine ⟨by omega, ?_, fun rest => Mux.C07_roundtrip ⟨c, cmd, data⟩ rest⟩
   exact (Mux.C07_send_iff {} c cmd data).mpr ⟨(by show c < 65536; omega), hcmd, hd⟩
 
+/-- **The identifier the cursor stands on is not handed out again while fewer than `max` ids are
+probed.**  The i-th probed id is `((cursor + i) mod max) + 1`; it equals the cursor only for
+`i = max − 1`.  So an allocation returns an id at cyclic distance `1 … probes` *ahead* of the cursor,
+never the cursor's own id. -/
+theorem C06_cursor_id_not_reused (max : Nat) (occ : Nat → Bool) (k chani c ch : Nat)
+    (hk : k < max) (h1 : 1 ≤ chani) (h2 : chani ≤ max)
+    (h : nextChannel max occ k chani = (some c, ch)) :
+    c ≠ chani ∧ ∃ i, i < k ∧ c = (chani + i) % max + 1 := by
+  have hf := C06_alloc_first_free max occ k chani
+  rw [h, C06_probe_cyclic max (by omega) k chani h2] at hf
+  have hm := List.mem_of_find?_eq_some hf.symm
+  simp only [List.mem_map, List.mem_range] at hm
+  obtain ⟨i, hi, rfl⟩ := hm
+  refine ⟨?_, i, hi, rfl⟩
+  intro he
+  have hlt : i < max := by omega
+  by_cases hw : chani + i < max
+  · rw [Nat.mod_eq_of_lt hw] at he; omega
+  · have : (chani + i) % max = chani + i - max := by
+      rw [Nat.mod_eq_sub_mod (by omega), Nat.mod_eq_of_lt (by omega)]
+    rw [this] at he; omega
+
+/-- With the code's own constants (`MAX_CHANNEL`, 1024 probes — both read off the source on every
+run): **the identifier released last is not the next one handed out.**  In a session of the client's
+table, the flow opened right after flow `c` (the cursor's id) was closed gets another id, so a message
+still on its way for the closed flow meets a closed identifier (`C06_late_frame_dropped`) and not the
+new flow — however quickly the new flow arrives. -/
+theorem C06_released_id_not_next (t : Table) (k : Kind) (h1 : 1 ≤ t.chani)
+    (h2 : t.chani ≤ Generated.MAX_CHANNEL) (c flow : Nat) (t' : Table)
+    (h : (t.step Generated.MAX_CHANNEL Generated.ALLOC_PROBES (.close t.chani)).1.step
+            Generated.MAX_CHANNEL Generated.ALLOC_PROBES (.open k) = (t', .opened c flow)) :
+    c ≠ t.chani := by
+  simp only [Table.step] at h
+  split at h
+  · cases h
+  · next c' ch hn =>
+    injection h with _ h; injection h with h _; subst h
+    exact (C06_cursor_id_not_reused Generated.MAX_CHANNEL _ Generated.ALLOC_PROBES t.chani c' ch
+      (by decide) h1 h2 hn).1
+
 /-! ## The same histories with the clock: lazy expiry and refreshed UDP associations -/
 
 /-- Invariant of the client's tables: the id table's invariant, one entry per id among the held
@@ -508,6 +548,10 @@ example :
                        .open .dns, .frame 2, .close 1, .open .tcp]).2 =
       [.opened 1 0, .opened 2 1, .opened 3 2, .discarded, .closed, .dropped,
        .opened 2 3, .delivered .dns 3, .closed, .opened 1 4] := by decide
+
+/-- Premises of `C06_released_id_not_next` met: open, close that id, open again → ids 1 then 2. -/
+example : (Table.run Generated.MAX_CHANNEL Generated.ALLOC_PROBES {} [.open .tcp, .close 1, .open .tcp]).2 =
+    [.opened 1 0, .closed, .opened 2 1] := by decide
 
 /-- A DNS reply releases the id: a second (duplicate or late) reply is dropped. -/
 example : (Table.run 5 4 {} [.open .dns, .frame 1, .frame 1]).2 =
